@@ -156,6 +156,7 @@ func (e *teng) reopenJudged(keys []uint64) (classes []string, what string) {
 //	at           : plain history up to operation #ReopenAt, one Reopen.
 func c16Long(l *tlong, dir string) *tres {
 	res := newRes(l.Name)
+	res.Long = true
 	start := time.Now()
 	defer func() { res.WallS = time.Since(start).Seconds() }()
 	restore := z.VerifSetPageSize(l.PageSize)
@@ -184,7 +185,7 @@ func c16Long(l *tlong, dir string) *tres {
 	viol := func(c string, i int, what string, at int) {
 		res.viol(c, func() (string, any) {
 			ll := *l
-			if at >= 0 {
+			if at >= 0 && ll.Reopen != "at" {
 				ll.Reopen, ll.ReopenAt = "at", at
 				ll.Name += fmt.Sprintf("@%d", at)
 			}
@@ -254,6 +255,11 @@ func c16Long(l *tlong, dir string) *tres {
 	res.Counters["structural_change_points"] = int64(len(cps))
 	if l.Reopen == "each-single" {
 		for _, c := range cps {
+			if pastTreeDeadline() {
+				res.Exhaustive = false
+				res.Note += fmt.Sprintf("tier deadline reached before the change point at operation #%d. ", c.i)
+				break
+			}
 			single(c.i)
 			if e.reopenPanics > 40 {
 				res.Exhaustive = false
@@ -277,6 +283,11 @@ func c16Long(l *tlong, dir string) *tres {
 		}
 		res.Transitions++
 		if ci < len(cps) && cps[ci].i == i {
+			if pastTreeDeadline() {
+				res.Exhaustive = false
+				res.Note += fmt.Sprintf("tier deadline reached at operation #%d of %d (%d Reopen events done). ", i, len(ops), ci)
+				return res
+			}
 			d, pan := e.digest()
 			if pan != nil || d != cps[ci].d {
 				viol("C16/map-misbehaves-after-reopen", i, fmt.Sprintf("after %s the tree that was reopened at every earlier structural change differs from the same history without Reopen: %+v vs %+v (panic: %v)", op, d, cps[ci].d, pan), -1)
@@ -311,7 +322,7 @@ func c16Long(l *tlong, dir string) *tres {
 	return res
 }
 
-func c16Jobs(tier, dir string) (jobs []*tjob, bfsN int) {
+func c16Jobs(tier, dir string) (jobs []*tjob) {
 	th := tier == "thorough"
 	pick := func(q, t int) int {
 		if th {
@@ -333,22 +344,21 @@ func c16Jobs(tier, dir string) (jobs []*tjob, bfsN int) {
 		jobs = append(jobs, &tjob{Prop: "C16", Cfg: c, Dir: dir})
 	}
 	add(&tcfg{Name: "file-ps80-full-alphabet", PageSize: 80, Keys: c10KeysFull, Vals: c10ValsFull, TS: c10TSFull,
-		Iters: c10Iters, Depth: pick(3, 4), BudgetS: bud(15, 400)})
+		Iters: c10Iters, Depth: pick(3, 4), BudgetS: bud(5, 400)})
 	add(&tcfg{Name: "file-ps80-deep", PageSize: 80, Keys: []uint64{1, 2, 3, 4, 5, 6, 7, maxU - 1}, Vals: []uint64{1, 3}, TS: []uint64{2, 4},
-		Iters: []string{"all:3"}, Depth: pick(5, 9), BudgetS: bud(25, 500)})
+		Iters: []string{"all:3"}, Depth: pick(5, 8), BudgetS: bud(9, 500)})
 	add(&tcfg{Name: "file-ps80-all-insertion-orders", PageSize: 80, Keys: []uint64{1, 2, 3, 4, 5, 6, 7, 8}, Vals: []uint64{1, 3},
-		TS: []uint64{2, 4}, InsertOnly: true, Depth: pick(5, 8), BudgetS: bud(15, 500)})
+		TS: []uint64{2, 4}, InsertOnly: true, Depth: pick(5, 8), BudgetS: bud(7, 500)})
 	add(&tcfg{Name: "file-ps80-three-levels", PageSize: 80, Prefix: seqPrefix(20, 10, []uint64{2, 1, 3}),
 		Keys: []uint64{9, 10, 11, 19, 20, 21, 41, 100, 101, 199, 200, 201, maxU - 1}, Vals: []uint64{1, 3}, TS: []uint64{2, 3, 4},
-		Depth: pick(3, 4), BudgetS: bud(10, 400)})
+		Depth: pick(3, 4), BudgetS: bud(3, 400)})
 	// several leaves with uniform values per leaf, so that DeleteBelow recycles 1..4 pages at once and the
 	// free list is rebuilt by Reopen in many shapes
 	add(&tcfg{Name: "file-ps80-free-lists", PageSize: 80, Prefix: seqPrefix(14, 10, []uint64{3, 1, 1, 5, 5}),
 		Keys: []uint64{5, 25, 45, 65, 85, 145, maxU - 1}, Vals: []uint64{1, 5}, TS: []uint64{2, 4, 6},
-		Depth: pick(4, 6), BudgetS: bud(15, 500)})
+		Depth: pick(4, 6), BudgetS: bud(4, 500)})
 	add(&tcfg{Name: "file-ps96-deep", PageSize: 96, Keys: []uint64{1, 2, 3, 4, 5, 6, 7, 8, maxU - 1}, Vals: []uint64{1, 3}, TS: []uint64{2, 4},
-		Depth: pick(4, 8), BudgetS: bud(10, 500)})
-	bfsN = len(jobs)
+		Depth: pick(4, 8), BudgetS: bud(4, 500)})
 	n := pick(33000, 40000)
 	long := func(ps int, pat, vs string, del int, mode string) {
 		jobs = append(jobs, &tjob{Prop: "C16", Dir: dir, Long: &tlong{Name: fmt.Sprintf("long-file-ps%d-%s-%s-%dkeys-del%d-%s", ps, pat, vs, n+1, del, mode),
@@ -358,7 +368,9 @@ func c16Jobs(tier, dir string) (jobs []*tjob, bfsN int) {
 	long(4096, "seq", "index", n/3, "every-change")
 	long(4096, "rev", "index", 0, "every-change")
 	if !th {
-		n = 12000
+		// quick: the three cheap 4 KiB-page histories run before the searches (they need ~1 s each)
+		jobs = append(jobs[len(jobs)-3:], jobs[:len(jobs)-3]...)
+		n = 6000
 		long(256, "seq", "index", n/3, "every-change")
 	}
 	if th {
@@ -375,9 +387,10 @@ func c16Jobs(tier, dir string) (jobs []*tjob, bfsN int) {
 		long(256, "rev", "index", n/3, "every-change")
 		long(256, "stride", "hash", n/3, "every-change")
 		long(256, "high", "hash", n/3, "every-change")
+		n = 16000
 		long(80, "seq", "index", n/3, "every-change")
 	}
-	return jobs, bfsN
+	return jobs
 }
 
 func c16(tier string, r *ev.Run, replay string) {
@@ -388,13 +401,16 @@ func c16(tier string, r *ev.Run, replay string) {
 	}
 	dir := treeWorkDir()
 	defer os.RemoveAll(dir)
-	jobs, bfsN := c16Jobs(tier, dir)
-	par := 1
+	jobs := c16Jobs(tier, dir)
+	par, limit := 1, 38.0
 	if tier == "thorough" {
-		par = 8
+		par, limit = 8, 560
+	}
+	for _, j := range jobs {
+		j.Deadline = float64(time.Now().UnixNano())/1e9 + limit
 	}
 	results := runJobs(jobs, par, tier)
-	publish(r, results, bfsN)
+	publish(r, results)
 	var reopens int64
 	for _, res := range results {
 		reopens += res.Counters["reopen_events"]
@@ -412,5 +428,4 @@ func c16(tier string, r *ev.Run, replay string) {
 		"map failures that also occur without any Reopen in the history (finding F2 while it is unfixed) are C10 violations and only counted here",
 		"around each Reopen of a long history Get is compared for the 48 most recently set keys, 16 spread keys and 4 never-set keys; complete contents are compared through IterateKV (pair count + order-independent checksum)",
 	}
-	_ = ev.Root
 }
